@@ -23,6 +23,23 @@ pub struct Script {
     pub stop: Stop,
 }
 
+thread_local! {
+    /// scripted hard failures happen once and the reader / writer works again afterwards (a flaky
+    /// sink): a correct caller never comes back after the error, so the case line and the model's
+    /// answer are those of a persistent failure
+    pub static FAIL_ONCE: std::cell::Cell<bool> = std::cell::Cell::new(false);
+    static RUNS: std::cell::Cell<u64> = std::cell::Cell::new(0);
+}
+
+/// every other scripted run has one-shot failures
+fn next_run() {
+    let n = RUNS.with(|r| {
+        r.set(r.get() + 1);
+        r.get()
+    });
+    FAIL_ONCE.with(|f| f.set(n % 2 == 1));
+}
+
 pub const KINDS: [(u8, &str); 10] = [
     (1, "(user 1)"),
     (2, "(user 2)"),
@@ -135,6 +152,12 @@ pub struct ScriptReader<'a> {
     pub pos: usize,
 }
 
+fn fail_once_taken(sc: &mut Script) {
+    if FAIL_ONCE.with(|f| f.get()) {
+        sc.stop = Stop::None;
+    }
+}
+
 impl<'a> Read for ScriptReader<'a> {
     fn read(&mut self, buf: &mut [u8]) -> Result<usize> {
         if buf.is_empty() {
@@ -150,6 +173,7 @@ impl<'a> Read for ScriptReader<'a> {
         }
         if let Stop::Fail(o, k, id) = self.sc.stop {
             if o == self.pos {
+                fail_once_taken(&mut self.sc);
                 return Err(script_error(k, id));
             }
         }
@@ -180,7 +204,10 @@ impl Write for ScriptWriter {
             });
         }
         match self.sc.stop {
-            Stop::Fail(so, k, id) if so == o => return Err(script_error(k, id)),
+            Stop::Fail(so, k, id) if so == o => {
+                fail_once_taken(&mut self.sc);
+                return Err(script_error(k, id));
+            }
             Stop::Zero(so) if so == o => return Ok(0),
             _ => {}
         }
@@ -234,6 +261,7 @@ fn gen_intr(g: &mut Gen, len: usize) -> Vec<(usize, usize)> {
 }
 
 pub fn run_reader<T: Full>(entry: &str, sc: &Script, bytes: &[u8]) -> String {
+    next_run();
     let mut r = ScriptReader { sc: sc.clone(), data: bytes, pos: 0 };
     let res = guarded(|| match entry {
         "dr" => T::deserialize_reader(&mut r),
@@ -446,6 +474,7 @@ pub fn c12_large(g: &mut Gen, out: &mut Sink, thorough: bool) {
 }
 
 pub fn run_writer<T: Full>(sc: &Script, v: &T) -> (String, Vec<u8>) {
+    next_run();
     let mut w = ScriptWriter { sc: sc.clone(), delivered: Vec::new() };
     let res = guarded(|| borsh::to_writer(&mut w, v));
     let st = match res {
